@@ -44,6 +44,7 @@ def run(rep: Report, tier: str) -> None:
     rep.rule("R09.1", "accept table of Cast.check_without_mask == docs (explicit ∪ implicit); check_cast on every path")
     rep.rule("R09.2", "COMP_NAME_MAPPING == docs; dataset measure renamed iff target is not an implicit promotion of source")
     rep.rule("R09.3", "_cast_expr routes representation-changing conversions through existing vtl_* macros")
+    rep.rule("R09.7", "cast Number -> Integer truncates: the generated SQL applies TRUNC before the integer CAST (DuckDB's CAST rounds)")
     types, by_name = type_domain(P)
     rev = {v: k for k, v in by_name.items()}
     null = by_name["Null"]
@@ -195,6 +196,14 @@ def run(rep: Report, tier: str) -> None:
                         rep.add(Finding("R09.3", f"R09.3/generic-cast/{rev[a]}[{src_spelling}]->{rev[b]}", fce.module.rel, fce.node.lineno,
                                         fce.qualname, f"cast {key} falls through to {sql!r}: a conversion between differently "
                                         f"represented types must use a vtl_* macro"))
+                    # R09.7: Number -> Integer TRUNCATES (VTL: cast(3.7, integer) = 3); DuckDB's numeric -> integer CAST rounds to nearest,
+                    # so the conversion must go through TRUNC (or floor/ceil by sign); other sources are unaffected
+                    if rev[a] == "Number" and rev[b] == "Integer" and fmt == "vtl":
+                        rep.instance("R09.7", f"number-to-integer/{src_spelling}", nontrivial=True, sample={"sql": sql})
+                        if not re.search(r"\bTRUNC\s*\(", sql, re.I):
+                            rep.add(Finding("R09.7", f"R09.7/number-to-integer/{src_spelling}", fce.module.rel, fce.node.lineno, fce.qualname,
+                                            f"cast Number -> Integer is emitted as {sql!r}: DuckDB's CAST of a non-integral number to an integer type rounds to nearest (3.7 -> 4, -1.5 -> -2), "
+                                            f"VTL's cast truncates (3, -1; Cast.cast_scalar uses int()); the value must pass through TRUNC"))
                     if not needs_macro and not used and fmt == "vtl" and src_spelling == cls_name[a] and sql == "CAST(X AS T)":
                         fallthrough.append(f"{rev[a]}->{rev[b]}")
     rep.note("R09.3 (information) accepted pairs served by the generic CAST(expr AS type): " + ", ".join(sorted(set(fallthrough))))
